@@ -19,6 +19,8 @@ def run(res, replay=None):
     import translate_step; (res.proof is not None) and translate_step.run(res.proof, pid=res.pid, tie='marginals')
     # structural tie of the propagation loops (_accumulate, cdf) of phasegen/distributions.py: translate the CURRENT source and re-check proofs/GenLoopsEquiv.v
     import translate_step; (res.proof is not None) and translate_step.run(res.proof, pid=res.pid, tie='loops')
+    # pinned reading of phasegen/expm.py (which matrix exponential Backend.expm denotes: SciPy's in binary64 unless another backend is registered): re-check the CURRENT source against it and proofs/GenExpmEquiv.v
+    import translate_step; (res.proof is not None) and translate_step.run(res.proof, pid=res.pid, tie='expm')
     rng = random.Random(res.seed)
     res.rule = ('cdf stream: random configurations (one locus: n<=4, 1-3 demes, three models, 1-3 epochs, half of them built with an early end_time on the Coalescent; two loci: n<=3, '
                 'Kingman); cdf at 0, interior points, exact epoch boundaries and beyond the last change (scalar and array '
